@@ -69,8 +69,11 @@ Splits(T) == {i \in 1..(TopExp(T) - 1) : Dense \/ i <= 4 \/ i % 8 \in {0, 1, 7} 
 
 SignPairs(T, x, y) == IF T.signed THEN {<<x, y>>, <<ZNeg(x), y>>, <<x, ZNeg(y)>>, <<ZNeg(x), ZNeg(y)>>} ELSE {<<x, y>>}
 
-ProductPairs(T) ==
-  UNION {UNION {SignPairs(T, x, y) : x \in Around(ZPow2(i)), y \in Around(ZPow2(TopExp(T) - i))} : i \in Splits(T)}
+ProductPairsAt(T, I) ==
+  UNION {UNION {SignPairs(T, x, y) : x \in Around(ZPow2(i)), y \in Around(ZPow2(TopExp(T) - i))} : i \in I}
+ProductPairs(T) == ProductPairsAt(T, Splits(T))
+\* three splits (2 * 2^(w-1), the middle, 2^(w-1) * 2) belong to the pairs every run executes
+MustSplits(T) == {1, TopExp(T) \div 2, TopExp(T) - 1} \cap (1..(TopExp(T) - 1))
 
 SumPairs(T) ==
   LET xs == {ZFromInt(v) : v \in {0, 1, 2, 100, 255}} \cup {ZPow2(k) : k \in {15, 31, 63} \cap (1..(TopExp(T) - 2))}
@@ -104,7 +107,8 @@ LimitPairs(T) == LET L == Keep(T, Limits(T) \cup {ZMinusOne, ZZero, ZOne}) IN L 
 InT(T, S) == {p \in S : InRange(T, p[1]) /\ InRange(T, p[2])}
 
 \* pairs every run executes for every binary operation (small sets around the limits) ...
-MustPairs(T) == InT(T, SumPairs(T) \cup SquarePairs(T) \cup DivPairs(T) \cup LimitPairs(T))
+MustPairs(T) == InT(T, SumPairs(T) \cup SquarePairs(T) \cup DivPairs(T) \cup LimitPairs(T)
+                          \cup ProductPairsAt(T, MustSplits(T)))
 \* ... and the large families, which the quick tier samples by seed
 Pairs(T) == InT(T, ProductPairs(T) \cup FixPairs(T))
 
